@@ -2257,6 +2257,201 @@ fn run_expiry(ctx: &Ctx, idx: usize, s: &ExpirySpec, out: &mut Partial) {
     rm(&d_e);
 }
 
+// ------------------------------------------------------------------ C18: two expiring exports in one directory
+
+/// Two exports with their own keys and validity periods side by side in one directory: at every instant around either
+/// expiry and either end of grace, a scan / a new manager must use exactly the unexpired ones and the cleanup must
+/// delete exactly those past their own grace period - one shard's expiry must not decide the other's fate.
+#[derive(Clone, Debug)]
+struct ExpiryPairSpec {
+    /// per export: 0 export_as_keyed_shard under k1, 1 export_with_expiration, 2 export_as_keyed_shard under the zero key, 3 under k2
+    ka: u8,
+    kb: u8,
+    /// both exports made from one original (true) or from two originals sharing one chunk (false)
+    same: bool,
+    da: u64,
+    db: u64,
+    g: u64,
+}
+fn expiry_pair_family(tier: Tier) -> Vec<ExpiryPairSpec> {
+    let kinds: &[u8] = tier.pick(&[0u8, 1, 3][..], &[0u8, 1, 2, 3][..]);
+    let ds: &[u64] = tier.pick(&[1u64, 100][..], &[1u64, 2, 100][..]);
+    let gs: &[u64] = tier.pick(&[0u64, 100][..], &[0u64, 1, 100][..]);
+    let mut out = vec![];
+    for ka in kinds {
+        for kb in kinds {
+            for same in [true, false] {
+                for da in ds {
+                    for db in ds {
+                        if same && ka == kb && da == db {
+                            continue; // the same file twice
+                        }
+                        for g in gs {
+                            out.push(ExpiryPairSpec { ka: *ka, kb: *kb, same, da: *da, db: *db, g: *g });
+                        }
+                    }
+                }
+            }
+        }
+    }
+    out
+}
+
+fn export_kind(sf: &Arc<MDBShardFile>, dir: &Path, kind: u8, d: u64) -> Result<Arc<MDBShardFile>, String> {
+    match kind {
+        0 => sf.export_as_keyed_shard(dir, to_mh(&key_of(1)), Duration::from_secs(d), true, true, true).map_err(es),
+        1 => sf.export_with_expiration(dir, Duration::from_secs(d)).map_err(es),
+        2 => sf.export_as_keyed_shard(dir, to_mh(&ZERO), Duration::from_secs(d), false, false, false).map_err(es),
+        _ => sf.export_as_keyed_shard(dir, to_mh(&key_of(2)), Duration::from_secs(d), true, false, true).map_err(es),
+    }
+}
+
+fn run_expiry_pair(ctx: &Ctx, idx: usize, s: &ExpiryPairSpec, out: &mut Partial) {
+    let prop = "C18";
+    let m = &ctx.m;
+    let kn = ["keyed(k1)", "with_expiration", "keyed(zero key)", "keyed(k2)"];
+    let desc = format!(
+        "two exports in one directory: a={} valid {}s, b={} valid {}s, {}, grace {}s",
+        kn[s.ka as usize],
+        s.da,
+        kn[s.kb as usize],
+        s.db,
+        if s.same { "of one original" } else { "of two originals sharing chunk A" },
+        s.g
+    );
+    let replay = json!({"kind": "expiry-pair", "ka": s.ka, "kb": s.kb, "same": s.same, "da": s.da, "db": s.db, "g": s.g, "case_index": idx});
+    out.count("expiry_pair_cases", 1);
+    vcore::vfs::set_clock(Some(T0));
+    // A, C and E have three different 64-bit prefixes (C and D share one, which would let one export's entry shadow the other's)
+    let xa = vec![small_xorb(&[0, 2])];
+    let xb = if s.same { xa.clone() } else { vec![small_xorb(&[0, 4])] };
+    let built = step(prop, "build-originals", &desc, &replay, out, || Ok((build_plain(ctx, &xa, &[], "pa")?, build_plain(ctx, &xb, &[], "pb")?)));
+    let Some(((d_a, sf_a), (d_b, sf_b))) = built else {
+        return;
+    };
+    let d_ea = ctx.fresh_dir("pea");
+    let d_eb = ctx.fresh_dir("peb");
+    let exps = step(prop, "export", &desc, &replay, out, || Ok((export_kind(&sf_a, &d_ea, s.ka, s.da)?, export_kind(&sf_b, &d_eb, s.kb, s.db)?)));
+    if let Some((ea, eb)) = exps {
+        let name = |e: &Arc<MDBShardFile>| e.path.file_name().unwrap().to_string_lossy().to_string();
+        let (na, nb) = (name(&ea), name(&eb));
+        if na == nb {
+            machinery_error(&format!("{desc}: the two exports have one name"));
+        }
+        let skew = if m.expiry_plus_two { 2 } else { 0 } - if m.expiry_minus_two { 2 } else { 0 };
+        let e = [T0 + s.da as i64 + skew, T0 + s.db as i64 + skew];
+        let g = s.g as i64;
+        let mut nows: BTreeSet<i64> = BTreeSet::new();
+        nows.insert(T0);
+        for x in e {
+            nows.extend([x - 1, x, x + 1, x + g - 1, x + g, x + g + 1]);
+        }
+        // probes: A is in both exports; C only in a (or in both when they share the original); E only in b
+        let probes: Vec<(Query, [bool; 2])> = vec![
+            (mk_query("A".into(), vec![sym_hash(0)]), [true, true]),
+            (mk_query("C".into(), vec![sym_hash(2)]), [true, s.same]),
+            (mk_query("E".into(), vec![sym_hash(4)]), [false, !s.same]),
+        ];
+        let xorb_of = [xa[0].hash, xb[0].hash];
+        for now in nows {
+            vcore::vfs::set_clock(Some(now));
+            let cp = ctx.fresh_dir("pc");
+            std::fs::copy(&ea.path, cp.join(&na)).expect("copy export a");
+            std::fs::copy(&eb.path, cp.join(&nb)).expect("copy export b");
+            type Answers = Vec<Obs>;
+            let ask = |mgr: &Arc<ShardFileManager>| -> Answers { probes.iter().map(|(q, _)| guarded(|| ctx.rt.block_on(mgr.chunk_hash_dedup_query(&q.mh)).map_err(es))).collect() };
+            let r = catch_unwind(AssertUnwindSafe(|| -> Result<([bool; 2], Answers, [bool; 2], Answers, Answers), String> {
+                let l = MDBShardFile::load_all_valid(&cp).map_err(es)?;
+                let has = |n: &str| l.iter().any(|x| x.path.file_name().map(|f| f.to_string_lossy() == n).unwrap_or(false));
+                let loaded = [has(&na), has(&nb)];
+                let mgr = ctx.rt.block_on(ShardFileManager::new_in_session_directory(&cp)).map_err(es)?;
+                let before = ask(&mgr);
+                MDBShardFile::clean_expired_shards(&cp, s.g).map_err(es)?;
+                let deleted = [!cp.join(&na).exists(), !cp.join(&nb).exists()];
+                let open_after = ask(&mgr);
+                let mgr2 = ctx.rt.block_on(ShardFileManager::new_in_session_directory(&cp)).map_err(es)?;
+                let fresh_after = ask(&mgr2);
+                Ok((loaded, before, deleted, open_after, fresh_after))
+            }));
+            let (loaded, before, deleted, open_after, fresh_after) = match r {
+                Ok(Ok(v)) => v,
+                Ok(Err(err)) => {
+                    out.violation("C18/expiry-check-failed", format!("{desc}, now={now}: {err}"), replay.clone());
+                    rm(&cp);
+                    continue;
+                },
+                Err(p) => {
+                    out.violation("C18/expiry-check-panicked", format!("{desc}, now={now}: {} at {}", panic_text(&p), last_panic_loc()), replay.clone());
+                    rm(&cp);
+                    continue;
+                },
+            };
+            out.count("evals", 1);
+            let at = format!("{desc}, now={now} (expiries a={} b={}, grace {g})", e[0], e[1]);
+            for i in 0..2 {
+                let who = ["a", "b"][i];
+                if now > e[i] {
+                    out.count("vac:pair_instants_past_expiry", 1);
+                    if loaded[i] {
+                        out.violation("C18/expired-shard-loaded", format!("{at}: export {who} is returned by load_all_valid"), replay.clone());
+                    }
+                } else if now < e[i] {
+                    out.count("vac:pair_instants_before_expiry", 1);
+                    if !loaded[i] {
+                        out.violation("C18/unexpired-shard-not-loaded", format!("{at}: export {who} is not returned by load_all_valid"), replay.clone());
+                    }
+                }
+                if now < e[i] + g {
+                    if deleted[i] {
+                        out.violation("C18/deleted-within-grace", format!("{at}: clean_expired_shards removed export {who}"), replay.clone());
+                    }
+                } else if now > e[i] + g {
+                    out.count("vac:pair_instants_past_grace", 1);
+                    if !deleted[i] {
+                        out.violation("C18/expired-shard-not-deleted", format!("{at}: clean_expired_shards kept export {who}"), replay.clone());
+                    }
+                }
+            }
+            if (now > e[0]) != (now > e[1]) && now != e[0] && now != e[1] {
+                out.count("vac:pair_instants_with_one_export_expired", 1);
+            }
+            // answers: a chunk must be found when an unexpired export holds it, must not be found when every export
+            // holding it is past its expiry, and an answer must name the xorb of an export that may still be used
+            for (pi, (q, holds)) in probes.iter().enumerate() {
+                let must = (0..2).any(|i| holds[i] && now < e[i]);
+                let may: Vec<RH> = (0..2).filter(|i| holds[*i] && now <= e[*i]).map(|i| xorb_of[i]).collect();
+                for (which, answers, strict) in [("a new manager", &before, true), ("a new manager after the cleanup", &fresh_after, true), ("the manager opened before the cleanup", &open_after, false)] {
+                    match &answers[pi] {
+                        Err(err) => out.violation("C18/expiry-check-failed", format!("{at}: query {} through {which}: {err}", q.label), replay.clone()),
+                        Ok(Some(a)) => {
+                            if !may.contains(&a.xorb) {
+                                out.violation("C18/expired-shard-loaded", format!("{at}: query {} through {which} is answered from xorb {} although no usable export holds it there", q.label, hx(&a.xorb)), replay.clone());
+                            }
+                        },
+                        Ok(None) => {
+                            if must && strict {
+                                out.violation("C18/unexpired-shard-not-loaded", format!("{at}: query {} through {which} finds nothing although an unexpired export holds the chunk", q.label), replay.clone());
+                            } else if must {
+                                // a manager that was open while files were removed may miss (get_reader_if_present); logged
+                                out.count("info:open_manager_misses_after_cleanup", 1);
+                            }
+                        },
+                    }
+                }
+            }
+            rm(&cp);
+        }
+        out.distinct(format!("expiry-pair:{}:{}:{}:{}:{}:{}", s.ka, s.kb, s.same, s.da, s.db, s.g));
+        if idx % 37 == 0 {
+            out.sample(json!({"case": "expiry-pair", "desc": desc}));
+        }
+    }
+    vcore::vfs::set_clock(Some(T0));
+    for d in [d_a, d_b, d_ea, d_eb] {
+        rm(&d);
+    }
+}
+
 // ------------------------------------------------------------------ C18 main
 
 /// C18 small family.  quick: every set of <= 2 xorbs of <= 2 chunks.  thorough: additionally every
@@ -2323,6 +2518,19 @@ fn main_c18(args: &Args) -> ! {
                 &ExpirySpec { kind: r["export"].as_u64().unwrap_or(0) as u8, t: r["t"].as_i64().unwrap_or(T0), d: r["d"].as_u64().unwrap_or(0), g: r["g"].as_u64().unwrap_or(0) },
                 &mut all,
             ),
+            Some("expiry-pair") => run_expiry_pair(
+                &ctx,
+                idx,
+                &ExpiryPairSpec {
+                    ka: r["ka"].as_u64().unwrap_or(0) as u8,
+                    kb: r["kb"].as_u64().unwrap_or(0) as u8,
+                    same: r["same"].as_bool().unwrap_or(true),
+                    da: r["da"].as_u64().unwrap_or(0),
+                    db: r["db"].as_u64().unwrap_or(0),
+                    g: r["g"].as_u64().unwrap_or(0),
+                },
+                &mut all,
+            ),
             o => machinery_error(&format!("replay kind {o:?} is not a C18 case")),
         }
         finish_c18(run, scratch, all);
@@ -2342,6 +2550,11 @@ fn main_c18(args: &Args) -> ! {
     for (i, s) in ef.iter().enumerate() {
         run_expiry(&ctx, 2_000_000 + i, s, &mut all);
     }
+    let pf = expiry_pair_family(tier);
+    for (i, s) in pf.iter().enumerate() {
+        run_expiry_pair(&ctx, 3_000_000 + i, s, &mut all);
+    }
+    run.set("expiry_pair_cases", json!(pf.len()));
     run.set("exports", json!(fam.len()));
     run.set("mixed_directories", json!(mf.len()));
     run.set("expiry_cases", json!(ef.len()));
@@ -2364,7 +2577,7 @@ fn finish_c18(mut run: Run, scratch: Scratch, mut all: Partial) -> ! {
     run.all = all;
     run.finish(
         evaluations,
-        "exports: every small shard (sets of xorbs over a 5-hash alphabet, two file records each) x keys {zero, k1, k2} x all 8 include-flag combinations, each export read back by an independent parser of the shard layout and queried through a real ShardFileManager with all query sequences up to query_length_bound; mixed directories: ordered triples of base shards as (unkeyed, k1, k2); expiry: (export kind, creation, validity, grace) x the seven instants around expiry and end of grace under the fake clock. A case is distinct and non-trivial when it is a different (shard, key, flags) export, mixed directory, or expiry configuration that was executed to the end",
+        "exports: every small shard (sets of xorbs over a 5-hash alphabet, two file records each) x keys {zero, k1, k2} x all 8 include-flag combinations, each export read back by an independent parser of the shard layout and queried through a real ShardFileManager with all query sequences up to query_length_bound; mixed directories: ordered triples of base shards as (unkeyed, k1, k2); expiry: (export kind, creation, validity, grace) x the seven instants around expiry and end of grace under the fake clock; expiry pairs: two exports (kinds, validities, one or two originals, grace) side by side in one directory x every instant around either expiry and either end of grace, judged per export (scan, new manager before and after the cleanup, deletion). A case is distinct and non-trivial when it is a different (shard, key, flags) export, mixed directory, or expiry configuration that was executed to the end",
         true,
     );
 }
